@@ -1,6 +1,6 @@
 \* as built: every shortest history after which the pointer semantics first deviates (DEV lines), depth <= 3
 CONSTANTS DeepCopyRebindsParents = FALSE CopyHookBoundToCopy = FALSE FlattenCopiesTop = TRUE
-          Universe = "full" MaxTrees = 3 MaxOps = 3
+          Lib = "flat" Universe = "full" MaxTrees = 3 MaxOps = 3
 INIT Init
 NEXT Next
 ACTION_CONSTRAINT LogDev
